@@ -126,15 +126,32 @@ Theorem custom_registered_refuted :
   cred_wf ex_cred = true /\ exists c', cred_roundtrip ex_cred [(N_EXP, 2000)] = Some (ROk c', []) /\ c' <> ex_cred.
 Proof. split; [vm_compute; reflexivity|]. eexists. split; [vm_compute; reflexivity|]. intros H. discriminate H. Qed.
 (* ... and is rejected when the credential has that member *)
-Theorem custom_duplicate_rejected c cu n v : cu_get cu n = Some v ->
-  (n = N_ISS \/ n = N_VC \/ n = N_NBF \/ (n = N_EXP /\ c_expires c <> None) \/ (n = N_JTI /\ c_id c <> None) \/ (n = N_SUB /\ c_sub_id c <> None)) ->
+Lemma cu_get_del cu n m : n <> m -> cu_get (cu_del cu n) m = cu_get cu m.
+Proof. intros Hn. induction cu as [|[k v] r IH]; [reflexivity|]. unfold cu_del in *. cbn [filter fst cu_get].
+  destruct (k =? n) eqn:E; cbn [negb].
+  - apply Z.eqb_eq in E. subst k. destruct (n =? m) eqn:E2; [apply Z.eqb_eq in E2; contradiction|exact IH].
+  - cbn [cu_get]. destruct (k =? m); [reflexivity|exact IH]. Qed.
+Lemma absorb_get field n cu f' cu' m : absorb field n cu = Some (f', cu') -> n <> m -> cu_get cu' m = cu_get cu m.
+Proof. unfold absorb. destruct (cu_get cu n) as [v|]; [destruct field; [discriminate|]|]; intros H Hn; injection H as <- <-; [apply cu_get_del; exact Hn|reflexivity]. Qed.
+Theorem custom_duplicate_rejected c cu v :
+  cu_get cu N_ISS = Some v \/ cu_get cu N_VC = Some v \/ cu_get cu N_NBF = Some v \/ (cu_get cu N_EXP = Some v /\ c_expires c <> None) ->
   cred_roundtrip c cu = None.
-Proof. Abort.
+Proof. intros H. unfold cred_roundtrip.
+  assert (R : reparse (to_claims c) cu = None); [|rewrite R; reflexivity]. unfold reparse.
+  destruct (cu_get cu N_ISS) eqn:E1; [reflexivity|]. destruct (cu_get cu N_VC) eqn:E2; [reflexivity|].
+  destruct H as [H|[H|[H|[H Hx]]]]; try discriminate H.
+  - destruct (absorb (k_exp (to_claims c)) N_EXP cu) as [[e cu1]|] eqn:A1; [|reflexivity].
+    destruct (absorb (k_iat (to_claims c)) N_IAT cu1) as [[ia cu2]|] eqn:A2; [|reflexivity].
+    assert (G : cu_get cu2 N_NBF = Some v).
+    { rewrite (absorb_get _ _ _ _ _ N_NBF A2) by discriminate. rewrite (absorb_get _ _ _ _ _ N_NBF A1) by discriminate. exact H. }
+    unfold absorb at 1. rewrite G. reflexivity.
+  - unfold absorb at 1. rewrite H. cbn [to_claims k_exp]. destruct (c_expires c); [reflexivity|contradiction]. Qed.
 
 (* ---------------- presentations ---------------- *)
 Lemma preparse_id k cu : pcustom_ok cu = true -> preparse k cu = Some (k, cu).
 Proof. intros H. unfold preparse.
   rewrite (cu_get_none cu pres_registered N_ISS H eq_refl), (cu_get_none cu pres_registered N_VP H eq_refl).
+  unfold absorb_issuance.
   rewrite !absorb_none by (apply (cu_get_none cu pres_registered); [exact H|reflexivity]).
   destruct k; reflexivity. Qed.
 Theorem pres_roundtrip_ok p o cu : popts_wf o = true -> pcustom_ok cu = true ->
